@@ -108,7 +108,7 @@ class TimeTicks(Integer):
         value: Union[timedelta, int, _SENTINEL_UNINITIALISED] = UNINITIALISED,
     ) -> None:
         if isinstance(value, timedelta):
-            value = int(value.total_seconds() * 100)
+            value = value // timedelta(milliseconds=10)
         super().__init__(value)
 
     def pythonize(self) -> Optional[timedelta]:  # type: ignore
